@@ -15,7 +15,7 @@ Case(kind, tol, jit, policy, evalerr, P, S, mode, cfg) ==
   [kind |-> kind, tol |-> tol, jit |-> jit, policy |-> policy, evalerr |-> evalerr, P |-> P, S |-> S, mode |-> mode, cfg |-> cfg]
 Simple(kind, tol, jit, P, S) == Case(kind, tol, jit, DefaultPolicy, FALSE, P, S, Flat(Zero), DefaultCfg)
 I == <<0, 1>>
-UnitVec(n, j, z) == [k \in 1..n |-> IF k = j THEN z ELSE GZ]
+UnitVec(n, j, z) == TLCEval([k \in 1..n |-> IF k = j THEN z ELSE GZ])
 
 (* ------------------------------------------------------------------ congruence *)
 CongSeeds == {[kind |-> "seed", t |-> t, m |-> m, den |-> d] :
@@ -80,7 +80,7 @@ SpanSets == <<
 SpanSeeds == {[kind |-> "seed", si |-> i] : i \in 1..(IF Thorough THEN 12 ELSE 10)}
 Coefs == IF Thorough THEN {GZ, G(1), G(-1), G(2), I, <<1, 1>>, <<1, -2>>} ELSE {GZ, G(1), G(-1), I, <<1, 1>>}
 RECURSIVE Combine(_, _, _)
-Combine(co, vs, k) == IF k = 0 THEN [j \in 1..Len(vs[1]) |-> GZ] ELSE SeqAdd(Combine(co, vs, k - 1), SeqScale(co[k], vs[k]))
+Combine(co, vs, k) == IF k = 0 THEN TLCEval([j \in 1..Len(vs[1]) |-> GZ]) ELSE SeqAdd(Combine(co, vs, k - 1), SeqScale(co[k], vs[k]))
 SpanVec(x) == LET vs == SpanSets[x.si]  n == Len(vs[1]) IN
               SeqAdd(Combine(x.co, vs, Len(vs)), IF x.step = 0 THEN UnitVec(n, 1, GZ) ELSE UnitVec(n, x.step, x.stepz))
 SpanCases(s) == LET vs == SpanSets[s.si] IN
